@@ -24,7 +24,7 @@ Hypotheses (explicit): `OrderLaws α` (true of IEEE `<`), `NoNaNData data` (no N
 `AverageNoNaN α` (the update of two non-NaN values with positive sizes is not NaN; for floats: the
 size-weighted sum does not overflow to `∞ − ∞`; hypothesis, not proved for floats).
 
-NOT proved: the same for Ward on floats (still not reducible under rounding); weighted: `Props/C12Weighted.lean`.
+Ward (repaired by the second `fix:` commit of the crate): `Props/C12Ward.lean`; weighted: `Props/C12Weighted.lean`.
 -/
 import Kodama.Props.C12
 import Kodama.Props.C01Average
